@@ -148,3 +148,52 @@ def _up(fx, fns, rl, callers, fid, F, seen, path):
         if r:
             return r
     return None
+
+
+# ------------------------------------------------------------------ R-FLUSHWHOLE
+def partial_flush_then_clear(ctx, fx, files, rule="R-FLUSHWHOLE", only=None):
+    """a write buffer that is emptied after a flush was flushed whole: where `write_all(&self.buf[..n])` (a range-indexed
+    part of a Vec field) is followed on some path by `self.buf.clear()` / `truncate(0)`, the bytes from n on are thrown
+    away. Accepted: writing the whole field, or removing exactly what was written (`drain(..n)`)."""
+    n = 0
+    for f in files:
+        for fid in fx.fn_ids(f):
+            if "::tests::" in fid or "{closure" in fid or (only and not only(fid)):
+                continue
+            rec = fx.raw(fid)
+            st = (rec["self_ty"] or "").split("<")[0]
+            if not st:
+                continue
+            pref = "." + st + "::"
+            fn = Fn(rec)
+            writes = []
+            for b, c in fn.calls():
+                if c["f"].rsplit("::", 1)[-1] not in ("write_all", "write") or len(c["a"]) < 2:
+                    continue
+                l = op_local(c["a"][1])
+                if l is None:
+                    continue
+                # the data argument comes from a range index on a field
+                for loc, kind, pl in fn.backslice([l], max_nodes=25)[1]:
+                    if kind == "call" and pl["f"].rsplit("::", 1)[-1] == "index" and len(pl["a"]) > 1 and \
+                            re.search(r"Range", fn.ty(op_local(pl["a"][1])) if op_local(pl["a"][1]) is not None else ""):
+                        fld = _direct_field(fn, op_local(pl["a"][0]), pref)
+                        if fld and "RangeFull" not in fn.ty(op_local(pl["a"][1])):
+                            writes.append((b, c, fld))
+            for b, c, fld in writes:
+                n += 1
+                ctx.analysed_fns.add(fid)
+                reach = fn.reachable_from(fn.succ(b))
+                bad = None
+                for b2, c2 in fn.calls():
+                    last = c2["f"].rsplit("::", 1)[-1]
+                    if b2 in reach and last in ("clear", "truncate") and c2["a"] and _direct_field(fn, op_local(c2["a"][0]), pref) == fld:
+                        bad = c2["ln"]
+                ok = bad is None
+                ctx.obligation(rule, fid, "partial flush of %s not followed by clear" % fld, ok, sample={"fn": fid, "line": c["ln"], "field": fld})
+                if not ok:
+                    ctx.violation(rule, fid, "part of %s written, all of it cleared" % fld,
+                                  "%s writes a range-indexed part of self.%s (line %d) and then clears the whole buffer (line %d): the bytes "
+                                  "beyond the written part never reach the file" % (fid.rsplit("::", 1)[-1], fld, c["ln"], bad), fn.file, bad)
+    ctx.instance(rule + ".partial_writes", n)
+    return n
